@@ -37,7 +37,7 @@ import (
 //
 // Observed: the status the clone ends with, how the new controller lists it, its chain, its revision
 // counter and the image read through the new controller.
-func (im *Impl) clone(name string, late bool) (out string) {
+func (im *Impl) clone(name string, late, fault bool) (out string) {
 	if im.rep() == nil || im.rb != nil {
 		return "refused"
 	}
@@ -60,6 +60,17 @@ func (im *Impl) clone(name string, late bool) (out string) {
 	base := stack.PortBase()
 	eps[0].Set(im.S)
 	defer eps[0].Set(nil)
+	dirT := im.Dir + fmt.Sprintf(".c%d", len(im.cleanups))
+	// a transfer cut in the middle (see stack.Init): the sender of the first snapshot data file reports
+	// an error and the second half of that file never arrives (the agent's children inherit the
+	// environment it is started with)
+	os.Remove(im.Dir + "/.verif-ssync-fault")
+	if fault {
+		os.Setenv("VERIF_SSYNC_FAULT_TARGET", dirT)
+		os.WriteFile(im.Dir+"/.verif-ssync-fault", nil, 0644)
+		defer os.Remove(im.Dir + "/.verif-ssync-fault")
+		defer os.Unsetenv("VERIF_SSYNC_FAULT_TARGET")
+	}
 	if err := eps[0].StartAgent(im.Dir, base); err != nil {
 		return "agent-failed " + err.Error()
 	}
@@ -80,7 +91,6 @@ func (im *Impl) clone(name string, late bool) (out string) {
 	go stub.Serve(ln)
 	defer stub.Close()
 
-	dirT := im.Dir + fmt.Sprintf(".c%d", len(im.cleanups))
 	os.RemoveAll(dirT)
 	os.MkdirAll(dirT, 0700)
 	im.cleanups = append(im.cleanups, dirT)
